@@ -135,11 +135,13 @@ def run(ctx):
             # loses every digit here; the centred form does not)
             mus = [m * c["offset"] for m in mus]
             data = mus[0] + data
-        clusters = [types.SimpleNamespace(train_inverse=t, inverse_covariance=None, log_determinant=None,
-                                          stacked_data_mean=m) for t, m in zip(thetas, mus)]
-        model = types.SimpleNamespace(arguments=types.SimpleNamespace(num_clusters=K, window_size=1), clusters=clusters)
+        model = tu.real_model(thetas, mus, 1, T)
         with warnings.catch_warnings():
             warnings.simplefilter("ignore")
+            # the SAME model object is scored twice, first on other data of the same shape (a held-out set, a
+            # bootstrap resample): the table must be a function of the data it is given
+            other = data[::-1] * 1.25 + 0.5
+            likelihood.all_points_all_clusters_log_likelihood(model, np.ascontiguousarray(other))
             table = likelihood.all_points_all_clusters_log_likelihood(model, data)
         bad = None
         for p in range(T):
